@@ -1,3 +1,4 @@
     ensures
         r is Ok ==> final(writer).sink() == old(writer).sink() + enc_item(keyspace_id, key@, value@, value_type, compression), // [C15:item-layout] [C03:item-layout]
         r is Err ==> old(writer).sink().is_prefix_of(final(writer).sink()), // [C03:append-only]
+        final(writer).infallible() == old(writer).infallible(), old(writer).infallible() ==> r is Ok, // [C03:vec-sink-never-fails]
